@@ -1,5 +1,6 @@
 """C18 -- scope layers compose predictably (runtime stack algebra): one inductive step per frame type."""
 import itertools
+import re
 import z3
 from mirsym.exec import Executor, State, Unsupported
 from mirsym.values import *
@@ -63,7 +64,7 @@ def scenario_for(ft, dkeys, roots, keys=None, op=None, deep=None):
         inner['x' if side == 'own' else 'g'] = 1 if side == 'own' else 2
         return inner
     ops = []
-    data = {k: val('own', k) for k in dkeys}
+    data = {k: (None if k in deep.get('nil', ()) else val('own', k)) for k in dkeys}
     if kind in ('plain', 'sandbox'): ops.append({'push': kind, 'data': data})
     elif kind == 'global':
         ops.append({'push': 'global'})
@@ -83,6 +84,11 @@ def deep_from_model(m, penv, fenv):
         if len(keys) == 2 and z3.is_true(m.eval(b, model_completion=True)): deep['parent'].add(keys)
     for (tag, keys), b in fenv.vars.items():
         if len(keys) == 2 and z3.is_true(m.eval(b, model_completion=True)): deep['own'].add(keys)
+    # own bindings whose value is nil in the solver's model
+    deep['nil'] = set()
+    for d in m.decls():
+        mm = re.match(r'^\w+?_(\w+)_is_nil$', d.name())
+        if mm and z3.is_true(m[d]): deep['nil'].add(mm.group(1))
     return deep
 
 
@@ -98,16 +104,17 @@ def reference_stack(sc):
                 if l['kind'] == 'global': l['data'][k] = v; break
         elif 'set_index' in op:
             k, v = op['set_index']; layers[0]['data'][k] = v
+    MISSING = '<missing>'
     def lookup(path):
         for l in reversed(layers):
             if path and path[0] in l['data']:
                 v = l['data']
                 for p in path:
                     if isinstance(v, dict) and p in v: v = v[p]
-                    else: return None
-                return v
-            if l['kind'] == 'sandbox': return None
-        return None
+                    else: return MISSING
+                return v          # may be None: a binding to nil is a binding
+            if l['kind'] == 'sandbox': return MISSING
+        return MISSING
     roots = set()
     for l in layers:
         if l['kind'] == 'sandbox': roots = set()
@@ -127,9 +134,10 @@ def confirm_stack(sc):
     def f(res):
         if res.get('outcome') != 'ok': return True
         for q, exp, got in zip(sc['queries'], ref['lookups'], res['queries']):
-            if (exp is None) != (got['try_get'] is None): return True
-            if (exp is None) != (got['get'] is None): return True
-            if exp is not None and (got['try_get'] != exp or got['get'] != exp): return True
+            missing = exp == '<missing>'
+            if missing != (not got.get('try_get_present', got['try_get'] is not None)): return True
+            if missing != (not got.get('get_present', got['get'] is not None)): return True
+            if not missing and (got['try_get'] != exp or got['get'] != exp): return True
         if res['roots'] != ref['roots']: return True
         if res.get('base_interrupt') != ref['base_interrupt'] or res.get('top_interrupt') != ref['top_interrupt']: return True
         return {k: v for k, v in res.get('index', {}).items()} != {k: v for k, v in ref['index'].items() if k in ('a', 'b', 'z')}
